@@ -227,11 +227,14 @@ func main() {
 				continue
 			}
 			rp := core.Replay{Property: v.Property, Harness: *harness, Config: *config, Tier: *tier, Race: *race, Seed: *seed, Idx: idx,
-				Tape: recorded, Violation: v, Sample: res.Sample, Trace: res.Trace}
-			if !*race {
-				shrink(h, rc, &rp, *shrinkSec)
-			}
+				Tape: recorded, Violation: v, Sample: res.Sample, Trace: res.Trace, HistFrom: *from, HistStride: *stride}
 			agg.Violations = append(agg.Violations, rp)
+			if !*race {
+				// checkpoint first: a candidate tape that hangs or exhausts the heap kills this
+				// process (watchdog), which must not lose the violation already seen
+				writeAgg()
+				shrink(h, rc, &agg.Violations[len(agg.Violations)-1], *shrinkSec)
+			}
 			if *verbose {
 				fmt.Printf("violation run=%d %s: %s\n", idx, cl, v.Detail)
 			}
@@ -368,6 +371,19 @@ func doReplay(path string, race bool, verbose bool) int {
 		for _, l := range res.Trace {
 			fmt.Println("  ", l)
 		}
+	}
+	if v == nil && rp.WithHistory && rp.HistStride > 0 && rp.HistFrom < rp.Idx {
+		// re-execute, from their seeds, the runs the original worker process had
+		// executed before the failing one, then the recorded run
+		base := simrt.Mix(rp.Seed, hstr(rp.Harness), hstr(rp.Config))
+		n := 0
+		for idx := rp.HistFrom; idx < rp.Idx; idx += rp.HistStride {
+			hrc := &core.RunCtx{T: simrt.NewTape(simrt.Mix(base, uint64(idx))), Tier: rp.Tier, Config: rp.Config, Idx: idx, Seed: rp.Seed, Race: race}
+			h.Run(hrc)
+			n++
+		}
+		fmt.Printf("history: re-executed the %d earlier runs of the worker process (indices %d, +%d, ... below %d)\n", n, rp.HistFrom, rp.HistStride, rp.Idx)
+		res, v, _ = runTape(h, rc, rp.Tape, rp.Violation.Class())
 	}
 	if v == nil {
 		fmt.Printf("NOT-REPRODUCED class=%s (got %d other violations)\n", rp.Violation.Class(), len(res.Violations))
